@@ -660,3 +660,51 @@ def rule_reg_type_seen(chk, A):
                key="regtype|%s|%s" % ("+".join(regs) or "tail", ops[did]))
     chk.floor(R + ":packs", n, 100)
     chk.floor(R + ":type-reading-helpers", sum(1 for v in summ.values() if v), 8)
+
+
+def rule_mem_base_label(chk, A):
+    """the base id of a memory operand is used as a label id only when the base is known to be a label"""
+    from .must import Must
+    R = "R-MEM-BASE-IS-LABEL"
+    chk.rule(R, "a64 _emit: `<mem>.base_id()` flows into is_label_valid() / label_entry_of() only on paths on which the operand is known to have "
+                "a label base (has_base_label() on the taken edge; `is_label() || (is_mem() && has_base_label())` followed by the not-a-label "
+                "branch counts): for an absolute memory operand base_id() is 0, i.e. somebody else's label")
+    emit = A["emit"]
+
+    def edge(b, si, atom, holds, fn=emit):
+        x = fn.e(atom)
+        if x is None or x["k"] != "mcall":
+            return ()
+        if x.get("cn") == "has_base_label" and holds:
+            return [("lob",), ("base-label",)]
+        if x.get("cn") == "is_label":
+            return [("lob",)] if holds else [("not-label",)]
+        return ()
+    m = Must(emit, None, edge)
+    # locals that receive a base_id() and are used as label ids
+    label_users = set()
+    for i, x in emit.calls(lambda x: x.get("cn") in ("is_label_valid", "label_entry_of") and x.get("args")):
+        a = emit.e(emit.strip(x["args"][0]))
+        if a is not None and a["k"] == "ref" and "did" in a:
+            label_users.add(a["did"])
+    n = 0
+    for i, x in sorted(emit.ex.items()):
+        tgt = None
+        if x["k"] == "binop" and x["op"] == "=":
+            l, r = emit.e(emit.strip(x["lhs"])), emit.e(emit.strip(x["rhs"]))
+            if l is not None and l["k"] == "ref" and l.get("did") in label_users and r is not None and r["k"] == "mcall" and r.get("cn") == "base_id":
+                tgt = i
+        elif x["k"] == "decl":
+            for v in x["vars"]:
+                r = emit.e(emit.strip(v["init"])) if v.get("init") else None
+                if v["did"] in label_users and r is not None and r["k"] == "mcall" and r.get("cn") == "base_id":
+                    tgt = i
+        if tgt is None:
+            continue
+        n += 1
+        st = m.before(tgt) or frozenset()
+        ok = ("base-label",) in st or (("lob",) in st and ("not-label",) in st)
+        chk.ob(R, "a64::_emit|base_id@%d" % n, ok, loc=emit.loc(tgt),
+               detail="`%s` takes the memory operand's base id as a label id on a path that never established has_base_label(): an absolute "
+                      "address ([abs], base id 0) is resolved against label #0" % " ".join(emit.text(tgt).split())[:60], key="membaselabel|%d" % n)
+    chk.floor(R + ":sites", n, 1)
